@@ -42,6 +42,10 @@ def configs(tier):
     for fam in ('jacobi', 'legendre', 'cheby1', 'cheby2', 'cheby3', 'cheby4', 'hermite_He', 'hermite_H', 'laguerre', 'dickson1', 'dickson2'):
         for li, ns in enumerate(lists if not q else lists[:5]):
             out.append({'name': '%s-seq-%s' % (fam, '_'.join(map(str, ns))), 'family': fam, 'orders': ns})
+    # the three-term recurrence coefficients themselves, including the hand-written n = 0 branch for alpha + beta in {0, -1} (the explorer
+    # follows the equalities on the symbolic alpha, beta)
+    for n in range(0, 4 if q else 7):
+        out.append({'name': 'jacobi-recurrence-n%d' % n, 'family': 'jacobi_rec', 'n': n})
     zn = 6 if q else 10
     for n in range(0, zn + 1):
         for m in range(-n, n + 1, 2):
@@ -65,7 +69,7 @@ def configs(tier):
 
 def params(cfg):
     fam = cfg['family']
-    if fam == 'jacobi':
+    if fam in ('jacobi', 'jacobi_rec'):
         return [('alpha', {'gt': -1}), ('beta', {'gt': -1})]
     if fam in ('cheby1', 'cheby2', 'cheby3', 'cheby4'):
         return [('theta', {'gt': 0, 'lt': 3})]
@@ -150,6 +154,20 @@ def run(cfg, H):
                 family_compare(H, fam, nn, out, env, '%s_seq[n=%d]' % (fam, nn))
         else:
             family_compare(H, fam, n, family_call(P, fam, n, env), env, fam)
+    elif fam == 'jacobi_rec':
+        a, b = H.param('alpha'), H.param('beta')
+        x = H.rarray('x', (1,))
+        jac = H.mod('prysm.polynomials.jacobi')
+        A, B, C = jac.recurrence_abc(n, a, b)
+
+        def pdef(k):
+            if k < 0:
+                return 0 * x
+            ref = 0 * x
+            for s_ in range(k + 1):
+                ref = ref + gbinom(H, k + a, k - s_) * gbinom(H, k + b, s_) * ((x - 1) * H.frac(1, 2)) ** s_ * ((x + 1) * H.frac(1, 2)) ** (k - s_)
+            return ref
+        H.eq('P_{n+1} == (A x + B) P_n - C P_{n-1}', (A * x + B) * pdef(n) - C * pdef(n - 1), pdef(n + 1))
     elif fam == 'zernike':
         m = cfg['m']
         r = H.rarray('r', (1,))
